@@ -684,11 +684,12 @@ class FieldNameMatchItemField(Contract):
     id = "C13.FieldNameProcessingCondition.match_detection_item_field"
     target = f"{CBASE}:FieldNameProcessingCondition.match_detection_item_field"
     props = ("C13",)
-    __doc__ = "match_detection_item_field: the verdict on the item's own field name"
+    cases = ("named", "keyword")
+    __doc__ = "match_detection_item_field: the verdict on the item's own field name - for keyword items (no field name) too: it is the condition that decides about None (exclude_fields holds, include_fields does not)"
 
-    def args(self, I):
+    def args(self, I, case):
         asked = []
-        verdict, fld = I.fresh("verdict", "bool"), I.fresh("field", "str")
+        verdict, fld = I.fresh("verdict", "bool"), (I.fresh("field", "str") if case == "named" else None)
         item = SObj(I.E.index.lookup("sigma.rule.detection:SigmaDetectionItem"), {"field": fld}, lazy=True)
         me = SObj(I.E.index.lookup(f"{CBASE}:FieldNameProcessingCondition"), {"match_field_name": NativeFn("mfn", lambda I2, a, k: (asked.append(a[0]), verdict)[1])}, lazy=True)
         return {"self": me, "args": [item], "asked": asked, "verdict": verdict, "fld": fld}
